@@ -431,6 +431,20 @@ many partitions, a failing `GetOrCreate`) is one of the caller programs, so `cal
 theorem newCursor_is_a_caller (sel : List Nat) (s : Nat) : isEntry (newCursorByQuery sel) ∧ isEntry (newCursorBySrc s) :=
   ⟨trivial, trivial⟩
 
+/-- **Matched release inside the callers that acquire by id and go on** (regenerated from the source on every run): in
+`ppipe.catchUp` (the pipe's start-up catch-up), `Service.truncateGlobally`, `Service.cleanupTsIndex` and `tmirebuilder.serve` no
+way out — `return`, `continue` / `break` of the loop the acquisition stands in, the end of that loop body or of the function,
+`panic` — is reached after a successful `GetJournal` / `GetJournalTags(…, true)` without a `Release` on the way (a deferred
+one counts). This is what makes the programs `catchUp srcs` / `idLoopOf srcs del` mirror these functions: every acquisition
+is followed by its `rel`. -/
+theorem matched_release_in_callers : Generated.C14.acquiredAtExit = [] := by decide
+
+open Logrange.TIndexProg in
+/-- the pipe's start-up catch-up is one of the caller programs (acquire by id, release, next source), so
+`callers_follow_protocol`, `program_balanced`, `program_balanced_shutdown`, `no_deadlock` cover it -/
+theorem catchUp_is_a_caller (srcs : List Nat) : isEntry (catchUp srcs) := by
+  cases srcs <;> simp [catchUp, idLoopOf, isEntry]
+
 open Logrange.TIndexProg in
 /-- … and once only: a control state that is about to `Release` the same partition twice (an error path calling both
 `cur.close()` and `releaseJournals`) is consistent with the caller's tokens only if it acquired the partition twice —
